@@ -107,7 +107,7 @@ type SymEval struct {
 	Subs []*ssa.BinOp
 	// MinArithBits is the smallest bit width of an integer addition/subtraction/multiplication met (0 = none).
 	MinArithBits int
-	pv   Prov
+	pv           Prov
 }
 
 func isUnsigned(t types.Type) bool {
